@@ -6,7 +6,9 @@
 //! calling form (borrowed / owned records, borrowed / owned dataset, in-place on a pre-filled target).
 //! Coq side (C03/Corr.v): the composing wrappers on mock members, platt_predict, and the predictors
 //! whose row function is modelled in Gallina (k-means, x.dot(w)+b, tree descent, isotonic
-//! interpolation, affine maps recomputed over Q).
+//! interpolation, affine maps recomputed over Q); C03/CorrMat.v: every predict_inplace transliteration
+//! of C03/MatModel.v on a pre-filled target, bit for bit, including panics on malformed shapes
+//! (matrixmultiply entries and libm values cross as tables that Coq checks independently).
 use linfa::composing::platt_scaling::{platt_predict, Platt};
 use linfa::composing::{MultiClassModel, MultiTargetModel};
 use linfa::dataset::Pr;
@@ -866,6 +868,34 @@ where M: PredictInplace<Array2<f64>, Array1<f64>> {
     }
 }
 
+/// binary32 OLS / elastic net: values cross as bit patterns
+fn mat_lin32<M>(ctx: &mut Ctx, model: &str, m: &M, w: &[f32], b: f32, pool: &Array2<f32>)
+where M: PredictInplace<Array2<f32>, Array1<f32>> {
+    let n = pool.nrows().min(16);
+    let x0 = pool.slice(s![..n, ..]).to_owned();
+    let p = x0.ncols();
+    let k = n.min(3);
+    let variants: Vec<(&str, Array2<f32>, usize)> = vec![
+        ("row_major", x0.clone(), n),
+        ("column_major", fortran(&x0), n),
+        ("empty_batch", x0.slice(s![..0, ..]).to_owned(), 0),
+        ("target_too_long", x0.slice(s![..k, ..]).to_owned(), k + 1),
+        ("extra_column", Array2::from_shape_fn((k, p + 1), |(i, j)| if j < p { x0[(i, j)] } else { 1.0 }), k),
+    ];
+    let bits = |v: &[f32]| -> Vec<i64> { v.iter().map(|a| a.to_bits() as i64).collect() };
+    for (variant, x, ny) in variants {
+        let contig = x.nrows() == 0 || x.row(0).as_slice().is_some();
+        let y0: Array1<f32> = (0..ny).map(|i| 1.0e30 + 1.0e24 * i as f32).collect();
+        let xx = &x;
+        let yy = y0.clone();
+        let out = guarded(AssertUnwindSafe(move || { let mut y = yy; m.predict_inplace(xx, &mut y); y })).ok();
+        let xrows: Vec<Vec<i64>> = x.rows().into_iter().map(|r| bits(&r.to_vec())).collect();
+        let term = format!("MLin32 {} {} {} {} {} {} {}", cbool(contig), cn(w.len() as u64), cvecz(&bits(w)), cz(b.to_bits() as i64),
+            clist(&xrows, |r| cvecz(r)), cvecz(&bits(&y0.to_vec())), copt(out.as_ref().map(|o| cvecz(&bits(&o.to_vec())))));
+        mat_case(ctx, model, variant, term, &x.mapv(|v| v as f64), out.is_none());
+    }
+}
+
 fn mat_logit<M>(ctx: &mut Ctx, model: &str, m: &M, w: &[f64], b: f64, thr: f64, pos: usize, neg: usize, pool: &Array2<f64>)
 where M: PredictInplace<Array2<f64>, Array1<usize>> {
     for (variant, x, ny) in mat_variants(pool, true, true) {
@@ -911,6 +941,12 @@ where M: PredictInplace<Array2<f64>, Array2<f64>> {
 
 fn mat_pca<M>(ctx: &mut Ctx, model: &str, m: &M, mean: &Array1<f64>, e: &Array2<f64>, pool: &Array2<f64>)
 where M: PredictInplace<Array2<f64>, Array2<f64>> {
+    // observation (not a C03 matter, outside the modelled inputs): ndarray co-broadcasts a one-column batch
+    // against the fitted mean, so such a batch is accepted by a model with more than one feature
+    if mean.len() > 1 && pool.nrows() >= 2 {
+        let x1 = pool.slice(s![..2, ..1]).to_owned();
+        if inplace_on(m, &x1, junk_mat(2, e.nrows())).is_some() { ctx.out.bump("obs_one_column_batch_accepted_pca"); }
+    }
     for (variant, x, ny) in mat_variants(pool, false, true) {
         let y0 = junk_mat(ny, e.nrows());
         let out = inplace_on(m, &x, y0.clone());
@@ -923,6 +959,10 @@ where M: PredictInplace<Array2<f64>, Array2<f64>> {
 
 fn mat_pls<M>(ctx: &mut Ctx, model: &str, m: &M, xm: &[f64], xs: &[f64], coef: &Array2<f64>, ym: &[f64], pool: &Array2<f64>)
 where M: PredictInplace<Array2<f64>, Array2<f64>> {
+    if xm.len() > 1 && pool.nrows() >= 2 {
+        let x1 = pool.slice(s![..2, ..1]).to_owned();
+        if inplace_on(m, &x1, junk_mat(2, coef.ncols())).is_some() { ctx.out.bump("obs_one_column_batch_accepted_pls"); }
+    }
     for (variant, x, ny) in mat_variants(pool, false, true) {
         let y0 = junk_mat(ny, coef.ncols());
         let out = inplace_on(m, &x, y0.clone());
@@ -1270,11 +1310,16 @@ fn linear_models(ctx: &mut Ctx, rng: &mut Sm64, ninst: usize) {
         let ymax = maxabs(&y).max(1.0);
         let ypos = ya.mapv(|v| (1.5 * v / ymax).exp());
         let dsp = DatasetBase::new(xa.mapv(|v| 0.25 * v), ypos);
-        for (power, link) in [(0.0, Link::Identity), (1.0, Link::Log), (2.0, Link::Log)] {
+        // targets in (0, 1) for the logit link (normal distribution)
+        let y01 = ya.mapv(|v| 1.0 / (1.0 + (-1.5 * v / ymax).exp()));
+        let ds01 = DatasetBase::new(xa.mapv(|v| 0.25 * v), y01);
+        for (power, link) in [(0.0, Link::Identity), (1.0, Link::Log), (2.0, Link::Log), (0.0, Link::Logit)] {
             if power == 2.0 && inst % 2 == 0 { continue; }
-            let name = if link == Link::Identity { "glm_identity" } else { "glm_log" };
+            let name = match link { Link::Identity => "glm_identity", Link::Log => "glm_log", Link::Logit => "glm_logit" };
             let r = if link == Link::Identity {
                 guarded(AssertUnwindSafe(|| TweedieRegressor::params().power(power).link(link).alpha(0.01).max_iter(200).fit(&ds)))
+            } else if link == Link::Logit {
+                guarded(AssertUnwindSafe(|| TweedieRegressor::params().power(power).link(link).alpha(0.1).max_iter(100).fit(&ds01)))
             } else {
                 guarded(AssertUnwindSafe(|| TweedieRegressor::params().power(power).link(link).alpha(0.1).max_iter(100).fit(&dsp)))
             };
@@ -1287,13 +1332,16 @@ fn linear_models(ctx: &mut Ctx, rng: &mut Sm64, ninst: usize) {
                         lin_case(ctx, name, 0, &w, b, &pool, &o.to_vec(), &[]);
                         let o: Array1<f64> = m.predict(&poolf);
                         lin_case(ctx, name, 0, &w, b, &poolf, &o.to_vec(), &[]);
+                    } else if link == Link::Logit {
+                        let bad = pool.rows().into_iter().zip(o.iter()).position(|(r, v)| (1.0 / (1.0 + (-(udot(r.as_slice().unwrap(), &w) * 1.0 + b)).exp())).to_bits() != v.to_bits());
+                        ext_case(ctx, name, bad.is_none(), "predict(x) = 1 / (1 + exp(-(unrolled_dot(x, coef) + intercept)))", &format!("first differing row {:?} coef {:?} intercept {:e}", bad.map(|i| pool.row(i).to_vec()), w, b));
                     } else {
                         let bad = pool.rows().into_iter().zip(o.iter()).position(|(r, v)| (udot(r.as_slice().unwrap(), &w) * 1.0 + b).exp().to_bits() != v.to_bits());
                         ext_case(ctx, name, bad.is_none(), "predict(x) = exp(unrolled_dot(x, coef) + intercept)", &format!("first differing row {:?} coef {:?} intercept {:e}", bad.map(|i| pool.row(i).to_vec()), w, b));
                     }
-                    mat_lin(ctx, name, &m, if link == Link::Identity { 1 } else { 2 }, &w, b, &pool);
+                    mat_lin(ctx, name, &m, match link { Link::Identity => 1, Link::Log => 2, Link::Logit => 3 }, &w, b, &pool);
                     let mut xl = Xl::real(maxabs(&w) + b.abs());
-                    xl.expo = link != Link::Identity;
+                    xl.expo = link == Link::Log;
                     let pred = mk_pred!(m, Array1<f64>, f64, view);
                     metamorph(ctx, rng, name, &format!("p={} power={}", p, power), &pred, &pool, &xl);
                 }
@@ -1306,6 +1354,7 @@ fn linear_models(ctx: &mut Ctx, rng: &mut Sm64, ninst: usize) {
             if let Ok(Ok(m)) = guarded(AssertUnwindSafe(|| ElasticNet::<f32>::params().penalty(0.1).l1_ratio(0.5).fit(&ds32))) {
                 let pool32 = pool.mapv(|v| v as f32);
                 let sc = m.hyperplane().iter().fold(0.0f64, |a, v| a.max(v.abs() as f64)) + m.intercept().abs() as f64;
+                mat_lin32(ctx, "elasticnet_f32", &m, &m.hyperplane().to_vec(), m.intercept(), &pool32);
                 let pred = mk_pred!(m, Array1<f32>, f32, view);
                 metamorph(ctx, rng, "elasticnet_f32", &format!("p={}", p), &pred, &pool32, &Xl::real(sc));
             }
@@ -1681,6 +1730,25 @@ fn nb_argmax_check(pool: &Array2<f64>, pred: &Array1<usize>, classes: &[(usize, 
     })
 }
 fn bayes_models(ctx: &mut Ctx, rng: &mut Sm64, ninst: usize) {
+    // nine features: the unrolled and the sequential summation orders differ (array-level Coq cases only;
+    // the metamorphic programme below keeps fewer than 8 features, where every layout sums in the same order)
+    for k in [2usize, 3] {
+        let p = 9;
+        let n = 40;
+        let (x, y) = blobs(rng, n, p, k, 0);
+        let labels = Array1::from(y.iter().map(|c| c * 3 + 1).collect::<Vec<usize>>());
+        if let Ok(Ok(m)) = guarded(AssertUnwindSafe(|| GaussianNb::params().fit(&DatasetBase::new(arr::<f64>(&x), labels.clone())))) {
+            let pool: Array2<f64> = arr(&pool_rows(rng, &x, &[]));
+            let classes = match bincode::serialize(&m).ok().and_then(|b| nb_classes(&b)) { Some(c) => c, None => panic!("cannot read the class statistics of GaussianNb from its bincode image") };
+            mat_nb(ctx, "gaussian_nb", &m, true, &classes, &pool);
+        } else { no_model(ctx, "gaussian_nb", "fit failed"); }
+        let xc: Vec<Vec<f64>> = y.iter().map(|c| (0..p).map(|j| (rng.below(4) + if j % k == *c { 3 } else { 0 }) as f64).collect()).collect();
+        if let Ok(Ok(m)) = guarded(AssertUnwindSafe(|| MultinomialNb::params().fit(&DatasetBase::new(arr::<f64>(&xc), labels.clone())))) {
+            let q: Vec<Vec<f64>> = (0..16).map(|i| if i < 6 { xc[rng.below(n as u64) as usize].clone() } else { (0..p).map(|_| rng.below(6) as f64 + 0.25 * rng.below(4) as f64).collect() }).collect();
+            let classes = match bincode::serialize(&m).ok().and_then(|b| nb_classes(&b)) { Some(c) => c, None => panic!("cannot read the class statistics of MultinomialNb from its bincode image") };
+            mat_nb(ctx, "multinomial_nb", &m, false, &classes, &arr(&q));
+        } else { no_model(ctx, "multinomial_nb", "fit failed"); }
+    }
     for inst in 0..ninst {
         // fewer than 8 features: the row sums then run in the same order in every layout
         let p = pick_dim(rng, inst + 2, 5);
@@ -1906,6 +1974,7 @@ fn f32_models(ctx: &mut Ctx, rng: &mut Sm64, ninst: usize) {
         let pool: Array2<f32> = arr(&pool_rows(rng, &x, &[]));
         if let Ok(Ok(m)) = guarded(AssertUnwindSafe(|| LinearRegression::new().fit(&DatasetBase::new(xa.clone(), ya.clone())))) {
             let sc = m.params().iter().fold(0.0f64, |a, v| a.max(v.abs() as f64)) + m.intercept().abs() as f64;
+            mat_lin32(ctx, "ols_f32", &m, &m.params().to_vec(), m.intercept(), &pool);
             let pred = mk_pred!(m, Array1<f32>, f32, view);
             metamorph(ctx, rng, "ols_f32", &format!("p={}", p), &pred, &pool, &Xl::real(sc));
         } else { no_model(ctx, "ols_f32", "fit failed"); }
@@ -2028,5 +2097,5 @@ fn main() {
     // largest fraction of the cross-layout rounding window that was consumed, in 1e-6
     let win = (ctx.max_xl_window * 1.0e6).min(1.0e15) as u64;
     ctx.out.bump_by("xl_max_window_fraction_ppm", win);
-    ctx.out.finish("per predictor type: fitted instances over feature counts {1,2,3,5,8,9,17} x batches (whole pool, empty, single row, one row three times, random rows with repeats), each batch predicted whole / row by row / permuted / with duplicates / in halves / through every calling form / in column-major, strided and reversed layouts; Coq cases: exhaustive (rows, members) in 0..4 x 0..4 for both wrappers plus random and malformed members, platt_predict over special and random (a, b, x), one case per fitted k-means / linear / tree / isotonic / affine model; a case is non-trivial when the batch has >= 2 rows (metamorphic) or the wrapper has >= 2 members; distinct = distinct canonical inputs");
+    ctx.out.finish("per predictor type: fitted instances over feature counts {1,2,3,5,8,9,17} x batches (whole pool, empty, single row, one row three times, random rows with repeats), each batch predicted whole / row by row / permuted / with duplicates / in halves / through every calling form / in column-major, strided and reversed layouts; Coq cases: exhaustive (rows, members) in 0..4 x 0..4 for both wrappers plus random and malformed members, platt_predict over special and random (a, b, x), one case per fitted k-means / linear / tree / isotonic / affine model; array-level cases (predict_inplace on a pre-filled target vs C03/MatModel.v) per fitted model of 14 families x {row-major, column-major, empty batch, target too long, target too short, one extra column}; a case is non-trivial when the batch has >= 2 rows (metamorphic) or the wrapper has >= 2 members; distinct = distinct canonical inputs");
 }
